@@ -8,6 +8,7 @@ package c05
 import (
 	"context"
 	"fmt"
+	"io"
 	"sort"
 	"testing"
 	"testing/synctest"
@@ -20,6 +21,7 @@ import (
 	nullmetrics "github.com/attestantio/vouch/services/metrics/null"
 	standardsigner "github.com/attestantio/vouch/services/signer/standard"
 	"github.com/rs/zerolog"
+	zerologger "github.com/rs/zerolog/log"
 
 	. "verifharness/common"
 	"verifharness/mocks"
@@ -165,7 +167,8 @@ func tieFree(in *Input) bool {
 					continue
 				}
 				for _, g := range gs {
-					if g == f {
+					// another relay's call returning at f, or its next call starting at f
+					if g == f || g+250 == f {
 						return false
 					}
 				}
@@ -493,9 +496,9 @@ func genRelays(r *Rand, in *Input) {
 		n = r.Range(1, 4)
 	}
 	in.Relays = make([]Relay, n)
-	profile := r.Intn(6) // 0: everything fails; 1: mostly honest; others: mixed
+	profile := []int{0, 1, 1, 1, 2, 2, 2}[r.Intn(7)] // 0: everything fails; 1: mostly honest; 2: mixed
 	for i := range in.Relays {
-		in.Relays[i].Can = !r.Chance(1, 8)
+		in.Relays[i].Can = !r.Chance(1, 10)
 		sc := make([]UOut, 3)
 		for k := range sc {
 			o := UOut{Lat: uint64(r.Range(0, 6))*1000 + uint64(r.Range(0, 999))}
@@ -562,6 +565,7 @@ func gen(r *Rand) Input {
 		DomRandao: true, DomBlock: true, SubmitOK: !r.Chance(1, 6),
 		Head:     uint64(r.Range(1, 1<<30)),
 		Deadline: uint64(r.Range(1, 12))*1000 + 999,
+		Trace:    r.Chance(1, 10),
 	}
 	if r.Chance(1, 8) {
 		// the last or first slot of an epoch
@@ -574,8 +578,8 @@ func gen(r *Rand) Input {
 	in.Accounts = &entries
 	in.SigRandao = u(uint64(r.Range(1, 1<<30)))
 	in.SigBlock = u(uint64(r.Range(1, 1<<30)))
-	// one failure position in Prepare, sometimes
-	switch r.Intn(40) {
+	// one failure position in Prepare, sometimes (8 of 80)
+	switch r.Intn(80) {
 	case 0:
 		in.Accounts = nil
 	case 1:
@@ -594,18 +598,22 @@ func gen(r *Rand) Input {
 	case 7:
 		in.SigRandao = u(0)
 	}
-	if r.Chance(1, 12) {
+	if r.Chance(1, 16) {
 		// a duty filled in by hand (or not at all)
 		in.DoPrepare = false
-		if r.Chance(4, 5) {
+		if r.Chance(5, 6) {
 			in.PreAccount = u(uint64(r.Range(1, 50)))
 		}
-		if r.Chance(4, 5) {
+		if r.Chance(5, 6) {
 			in.PreRandao = uint64(r.Range(1, 1<<30))
 		}
+	} else if r.Chance(1, 25) {
+		// Prepare on a duty that already carries an account and a reveal (a second Prepare)
+		in.PreAccount = u(uint64(r.Range(51, 99)))
+		in.PreRandao = uint64(r.Range(1, 1<<30))
 	}
-	// signing the block
-	switch r.Intn(25) {
+	// signing the block (3 of 36)
+	switch r.Intn(36) {
 	case 0:
 		in.DomBlock = false
 	case 1:
@@ -624,9 +632,9 @@ func gen(r *Rand) Input {
 		in.GraffitiVal = uint64(r.Range(0, 1<<30))
 	}
 	// the proposal
-	if !r.Chance(1, 16) {
-		p := &Proposal{Version: uint64(r.Range(1, 5)), BodyPresent: !r.Chance(1, 20), Block: genHdr(r, in.Slot, in.Validator)}
-		if r.Chance(1, 25) {
+	if !r.Chance(1, 20) {
+		p := &Proposal{Version: uint64(r.Range(1, 5)), BodyPresent: !r.Chance(1, 30), Block: genHdr(r, in.Slot, in.Validator)}
+		if r.Chance(1, 30) {
 			p.Version = []uint64{0, 6, 7}[r.Intn(3)]
 		}
 		if p.Version >= 3 {
@@ -634,7 +642,7 @@ func gen(r *Rand) Input {
 		} else {
 			p.Blinded = r.Chance(1, 15)
 		}
-		switch r.Intn(10) {
+		switch r.Intn(24) {
 		case 0:
 			p.Block.Slot = in.Slot + 1
 		case 1:
@@ -643,8 +651,11 @@ func gen(r *Rand) Input {
 			}
 		case 2:
 			p.Block.Slot = uint64(r.Range(0, 1<<20))
+		case 3:
+			// the next epoch's slot with the same position, and the slot the epoch starts at
+			p.Block.Slot = in.Slot + in.SPE
 		}
-		if r.Chance(1, 25) {
+		if r.Chance(1, 30) {
 			p.Block = nil
 		}
 		if p.Version == 5 && !p.Blinded && r.Chance(2, 3) {
@@ -653,7 +664,7 @@ func gen(r *Rand) Input {
 		in.Proposal = p
 	}
 	// relays and the auction
-	for tries := 0; ; tries++ {
+	for {
 		genRelays(r, &in)
 		if tieFree(&in) {
 			break
@@ -664,18 +675,18 @@ func gen(r *Rand) Input {
 		idx[i] = i
 	}
 	switch k := r.Intn(20); {
-	case k < 2:
+	case k < 1:
 		in.Auction = "none"
-	case k < 4:
+	case k < 3:
 		in.Auction = "err"
 	default:
 		in.Auction = "ok"
 		in.All = subset(r, idx, 3)
-		if r.Chance(2, 3) {
+		if r.Chance(3, 4) {
 			in.All = idx
 		}
 		in.Winners = subset(r, in.All, 2)
-		if r.Chance(1, 10) {
+		if r.Chance(1, 12) {
 			// winners outside AllProviders (the auctioneer's business, not vouch's)
 			in.Winners = subset(r, idx, 2)
 		}
@@ -686,7 +697,7 @@ func gen(r *Rand) Input {
 			in.Winners = []int{}
 		}
 	}
-	if in.Proposal != nil && in.Proposal.Blinded && in.Auction == "ok" && r.Chance(1, 4) {
+	if in.Proposal != nil && in.Proposal.Blinded && in.Auction == "ok" && r.Chance(1, 5) {
 		in.Deadline = uint64(r.Range(0, 2))*1000 + 999
 		for !tieFree(&in) {
 			in.Deadline += 1000
@@ -775,6 +786,7 @@ func TestC05(t *testing.T) {
 	col := NewCollector("C05", "Check.C05",
 		"one proposal duty per case: Prepare then Propose on the real proposer + real signer with scripted accounts provider, remote-signer account, domain / graffiti / proposal providers, auctioneer, 0-4 relays (three scripted answers each, fake latencies) and submitter, in a synctest bubble; all versions x blinded x one failure position per step. Non-trivial = the proposal request reaches the beacon node (the duty passed validation); distinct by input text")
 	n := EnvInt("VERIF_N", 500)
+	zerologger.Logger = zerolog.New(io.Discard) // trace-level cases write their log lines nowhere
 	var ins []Input
 	for _, in := range LoadInputs[Input]("C05") {
 		in.Tags = append(in.Tags, "corpus")
